@@ -22,6 +22,7 @@ type Conn struct {
 	hasRdl   bool
 	Frag     bool // offer short reads / split writes as alternatives
 	Wrote    int  // bytes written by this end (for harness assertions)
+	ReadN    int  // bytes read by this end
 }
 
 type vaddr string
@@ -84,6 +85,7 @@ func (c *Conn) Read(p []byte) (int, error) {
 	e.mu.Lock()
 	if err == nil {
 		c.buf = c.buf[n:]
+		c.ReadN += n
 	}
 	e.mu.Unlock()
 	e.done(g, o, uint64(n)+7)
